@@ -77,6 +77,8 @@ func C08_FutureMessage() {
 	env.Assert("C08."+K+".not_own", snd.id != myId)
 	env.Assert("C08."+K+".instance", hdr.instance == vInstance)
 	env.Assert("C08."+K+".height", hdr.height == H)
+	// the signed header is the header of a message of this kind (a COMMIT header inside a PREPARE envelope is not a PREPARE)
+	env.Assert("C08."+K+".type", hdr.typ == []protocol.MessageType{protocol.LEAN_HELIX_PREPREPARE, protocol.LEAN_HELIX_PREPARE, protocol.LEAN_HELIX_COMMIT, protocol.LEAN_HELIX_VIEW_CHANGE}[kind])
 	switch kind {
 	case 0:
 		env.Assert("C08.PP.leader", snd.id == ref.leader(hdr.view))
@@ -252,6 +254,8 @@ func C08_OneMessage() {
 	env.Assert("C08."+K+".not_own", snd.id != myId)
 	env.Assert("C08."+K+".instance", hdr.instance == vInstance)
 	env.Assert("C08."+K+".height", hdr.height == H)
+	// the signed header is the header of a message of this kind (a COMMIT header inside a PREPARE envelope is not a PREPARE)
+	env.Assert("C08."+K+".type", hdr.typ == []protocol.MessageType{protocol.LEAN_HELIX_PREPREPARE, protocol.LEAN_HELIX_PREPARE, protocol.LEAN_HELIX_COMMIT, protocol.LEAN_HELIX_VIEW_CHANGE}[kind])
 	switch kind {
 	case 0:
 		env.Assert("C08.PP.leader", snd.id == ref.leader(hdr.view))
